@@ -531,6 +531,10 @@ func (c *FnCtx) loopHead(b *ssa.BasicBlock, li *loopInfo, ins []loopEdge) {
 			c.ghost[k] = Val{T: c.fresh("ghost_"+k, c.sortOf(gv.Ty)), Ty: gv.Ty}
 		}
 	}
+	if c.headHeap == nil {
+		c.headHeap = map[*ssa.BasicBlock]Heap{}
+	}
+	c.headHeap[b] = c.heap
 	if k := fmt.Sprintf("loopdone %d", li.ord); c.watch[k] {
 		ng := map[string]Val{}
 		for a, v := range c.ghost {
@@ -586,6 +590,9 @@ func (c *FnCtx) backEdge(p, head *ssa.BasicBlock, cond string, st *blockState) {
 	save := c.ghost
 	c.ghost = st.ghost
 	env := c.loopEnv(head, subst, st.heap)
+	if hh, ok := c.headHeap[head]; ok {
+		env.headEnv = c.loopEnv(head, map[ssa.Value]Val{}, hh)
+	}
 	edge := ""
 	if len(li.latch) > 1 {
 		for n, l := range li.latch {
